@@ -573,7 +573,9 @@ func (r *c20Run) activity(all bool) map[string][2]int {
 		out[key] = e
 	}
 	for _, e := range r.w.srv.Log() {
-		if e.Verb == "get" || e.Verb == "list" || e.Verb == "watch" {
+		// Only the status write names its author: any other write of a parent (adding a
+		// finalizer, say) carries along whatever status the object had.
+		if e.Verb != "updatestatus" {
 			continue
 		}
 		if by := c20WriteBy(e.Body); by != "" {
